@@ -690,6 +690,7 @@ Definition invoke_let (e : expr) (s : rstate) : outcome :=
   | EItem x i => let_item x i s
   | ESlice x b en c => let_slice x b en c s
   | EDeref _ => unsupported "deref assignment"
+  | EParen x => rec (CLet x) s
   | _ => raise "invalid operation" s
   end.
 
@@ -814,6 +815,13 @@ Definition arity_error (want got : nat) (s : rstate) : outcome :=
 Definition pack_variadic (vs : list value) (s : rstate) : rstate * rval :=
   let '(st', sl) := new_slice (r_st s) vs in (set_st s st', Imm sl).
 
+(* the context is looked at once more when the arguments are evaluated (that may have taken long: a
+   nested call of a slow Go function): a cancelled run does not enter another function *)
+Definition call_finish (f : value) (argv : list rval) (callslice : bool) (s1 : rstate) : outcome :=
+  let '(cancelled, s2) := poll s1 in
+  if cancelled then Err (ESentinel SInterruptS) (set_rv s2 rv_nil)
+  else rec (CApply f argv callslice) (set_rv s2 rv_nil).
+
 (* callExpr (function already resolved) with callVMFunctionDirect and makeCallArgs.
    fixed = number of declared parameters (without ctx), for a variadic function
    including the variadic one. *)
@@ -836,8 +844,7 @@ Definition call_function (f : value) (args : list expr) (vararg go : bool) (s : 
   | None => Abort (APanic "call of unknown function")
   | Some (num_in, fvar, isvm) =>
     let num_exprs := length args in
-    let finish (argv : list rval) (callslice : bool) (s1 : rstate) : outcome :=
-      rec (CApply f argv callslice) (set_rv s1 rv_nil) in
+    let finish := call_finish f in
     (* the direct path: script function, plain call, exact count, at most 4 parameters;
        5 and more go through makeCallArgs with the same evaluation order *)
     if isvm && negb vararg && negb fvar && Nat.eqb num_in num_exprs then
@@ -1452,9 +1459,9 @@ Definition run_single (so : option stmt) (s : rstate) : outcome :=
     | SReturn es => run_return es s0
     | SThrow e =>
         do s1 <- rec (CExpr e) s0;
-        (* newStringError returns nil for the empty message: `throw ""` raises nothing *)
+        (* throw always raises, also with an empty message *)
         tri_bind (to_string_st orc (r_st s1) (deref (r_st s1) (r_rv s1)))
-                 (fun m => if String.eqb m "" then Ok s1 else Err (EVm m) s1) (unsupported "throw of container")
+                 (fun m => Err (EVm m) s1) (unsupported "throw of container")
     | SModule name body => run_module name body s0
     | SSwitch e cases default => run_switch e cases default s0
     | SGo _ => unsupported "go statement"
